@@ -414,6 +414,7 @@ func init() {
 			{Name: "families", QShards: 2, TShards: 6, Run: c15Families},
 			{Name: "nested", StallSec: 60, Run: c15Nested},
 			{Name: "opcounts", QShards: 3, TShards: 6, Run: c15OpCounts},
+			{Name: "jsonhistory", TShards: 4, Run: c15JSONHistory},
 		},
 	})
 }
@@ -1169,5 +1170,115 @@ func c15OpCounts(c *Ctx) {
 			})
 			idx++
 		}
+	}
+}
+
+// c15JSONHistory: a BIG trie (thousands of members, a JSON form of 100 KB to
+// megabytes) is marshalled, changed a little, marshalled again — a session
+// that saves its index after every edit. Each saved form must rebuild the set
+// as it was when it was taken: after a Delete of one member, of a whole
+// branch, after an Add, after a Delete that fails. An encoder that keeps the
+// encoded form of big unchanged subtrees has to know what "unchanged" means.
+func c15JSONHistory(c *Ctx) {
+	n := c.N(6, 60)
+	for i := 0; i < n; i++ {
+		c.Case(int64(i), func(k *K) {
+			r := k.Rand()
+			klen := pick(r, []int{8, 8, 10, 12})
+			count := pick(r, []int{3000, 4000, 6000})
+			if c.Thorough && i%5 == 0 {
+				count = 40000
+			}
+			t := trie.New()
+			model := map[string]bool{}
+			for len(model) < count {
+				s := string(randSeq(r, []byte("ACGT"), klen))
+				model[s] = true
+				t.Add([]byte(s))
+			}
+			k.Input("members", count)
+			k.Input("member_length", klen)
+			check := func(what string) bool {
+				var b []byte
+				var err error
+				if r.IntN(2) == 0 {
+					b, err = t.MarshalJSON()
+				} else {
+					b, err = json.Marshal(t)
+				}
+				if err != nil {
+					k.Failf("json", "%s: marshalling failed: %v", what, err)
+					return false
+				}
+				t2 := trie.New()
+				if err := t2.UnmarshalJSON(b); err != nil {
+					k.Failf("json", "%s: UnmarshalJSON of the %d bytes just marshalled failed: %v", what, len(b), err)
+					return false
+				}
+				got := map[string]bool{}
+				t2.ForEach(func(x []byte) bool { got[string(x)] = true; return true })
+				if len(got) != len(model) {
+					k.Failf("json-history", "%s: the JSON form (%d bytes) rebuilds %d members, the trie holds %d", what, len(b), len(got), len(model))
+					return false
+				}
+				for x := range model {
+					if !got[x] {
+						k.Failf("json-history", "%s: the JSON form (%d bytes) lacks the member %q", what, len(b), x)
+						return false
+					}
+				}
+				k.Count("json_roundtrips", 1)
+				k.Count("json_forms_of_big_tries", 1)
+				k.Evals(1)
+				return true
+			}
+			if !check("the freshly filled trie") {
+				return
+			}
+			anyMember := func() string {
+				for x := range model {
+					return x
+				}
+				return ""
+			}
+			for round := 0; round < 8; round++ {
+				var what string
+				switch r.IntN(5) {
+				case 0, 1: // delete one member
+					x := anyMember()
+					if !t.Delete([]byte(x)) {
+						k.Failf("delete-result", "Delete(%q) of a member returned false", x)
+						return
+					}
+					delete(model, x)
+					what = fmt.Sprintf("after Delete(%q) (round %d, marshalled before)", x, round)
+				case 2: // delete a whole branch
+					p := anyMember()[:klen-1-r.IntN(3)]
+					t.Delete([]byte(p))
+					for x := range model {
+						if strings.HasPrefix(x, p) {
+							delete(model, x)
+						}
+					}
+					what = fmt.Sprintf("after Delete(%q), a branch (round %d)", p, round)
+				case 3: // add a new member
+					x := string(randSeq(r, []byte("ACGT"), klen))
+					t.Add([]byte(x))
+					model[x] = true
+					what = fmt.Sprintf("after Add(%q) (round %d)", x, round)
+				default: // a Delete that finds nothing
+					x := string(randSeq(r, []byte("ACGT"), klen-1)) + "N"
+					if t.Delete([]byte(x)) {
+						k.Failf("delete-result", "Delete(%q) of an absent sequence returned true", x)
+						return
+					}
+					what = fmt.Sprintf("after a Delete that found nothing (round %d)", round)
+				}
+				if !check(what) {
+					return
+				}
+			}
+			k.Nontrivial([]byte(fmt.Sprint("jsonhistory", i, count, klen)))
+		})
 	}
 }
